@@ -30,7 +30,7 @@ func init() {
 		return simrt.Options{MaxSteps: 200000, RotateMaps: true, StallPermille: 30, StallMax: 20 * time.Millisecond}
 	}, Body: liveBody})
 	runner.Register("C07", runner.Scenario{Name: "live-sql-preempt", Options: func(string) simrt.Options {
-		return simrt.Options{MaxSteps: 200000, RotateMaps: true, ParkPermille: 8, MapPausePermille: 200}
+		return simrt.Options{MaxSteps: 200000, RotateMaps: true, ParkPermille: 8, MapPausePermille: 200, SpawnPausePermille: 30}
 	}, Body: liveBody})
 }
 
